@@ -23,6 +23,7 @@ Decided statically (DESIGN.md section 5, C20):
   R-C20-8  the utilisation divisor is a wall-clock interval at clock resolution (not truncated to whole ticks) or guarded.
   R-C20-9  no tracing function called while threadTraceMutex is held locks it again.
   R-C20-10 the log file is opened in a truncating mode.
+  R-C20-11 namespace-scope state of the tracing unit is written only under a lock (no unsynchronised lazy creation).
 Not decided: equality of decoded pixel values (run-time contents), JSON escaping of user supplied names,
 nesting of begin/end pairs in the recorded history, what fopen/fwrite/ofstream do.
 """
@@ -303,9 +304,16 @@ class ImgFn:
             t = re.sub(r'\*\s*(const)?\s*$', '', casts[0]).strip()
             t = re.sub(r'^const\s+', '', t)
             sz = type_size(tu, t)
-            if sz is None or res[3] % sz != 0:
+            if sz is None:
                 return None
-            res = ('ptr', res[1], res[2] * (res[3] // sz), sz)
+            if res[3] % sz == 0:
+                res = ('ptr', res[1], res[2] * (res[3] // sz), sz)
+            elif sz % res[3] == 0 and all(v_ % (sz // res[3]) == 0 for v_ in res[2].t.values()):
+                # from a finer unit (bytes) back to elements: the byte offset is a whole number of elements
+                k_ = sz // res[3]
+                res = ('ptr', res[1], Poly({m_: v_ // k_ for m_, v_ in res[2].t.items()}), sz)
+            else:
+                return None
         elif casts and res[0] == 'alloc':
             t = re.sub(r'\*\s*(const)?\s*$', '', casts[0]).strip()
             t = re.sub(r'^const\s+', '', t)
@@ -740,6 +748,49 @@ def check_write_image(ctx, tu, f):
             total = total.subst(atom, va_ * co[0].const_value())
         return total
 
+    # ---- the arithmetic that locates a row must be exact for every image whose pixel count fits the index type (int)
+    INT_MAX = 2 ** 31 - 1
+    sxa, sya = list(sx.t)[0][0], list(sy.t)[0][0]
+    row_atoms = set()
+    for r_ in reads:
+        for v_ in r_[3][:1]:
+            row_atoms.add(('sym', loops[v_]['name']))
+            if loops[v_].get('step', 1) > 1 and len(r_[3]) > 1:
+                row_atoms.add(('sym', loops[r_[3][1]]['name']))
+
+    def size_bound(poly):
+        """upper bound of a value over all images with sizeX * sizeY <= INT_MAX (loop variables at their maximum)"""
+        rng_ = [(('sym', l_['name']), l_['count'] if l_.get('count') is not None else l_.get('bound')) for l_ in loops.values()
+                if ('sym', l_['name']) in poly.atoms()]
+        if any(c_ is None for a_, c_ in rng_):
+            return None
+        b_ = bounds_over(poly, rng_) if rng_ else (poly, poly)
+        if b_ is None:
+            return None
+        tot = 0
+        for mon, c_ in b_[1].t.items():
+            if not set(mon) <= {sxa, sya} or mon.count(sxa) > 1 or mon.count(sya) > 1:
+                return None
+            if c_ > 0:
+                tot += c_ * (INT_MAX if mon else 1)
+        return tot
+
+    for x_ in tu.walk(body):
+        if x_.get('kind') != 'BinaryOperator' or x_.get('opcode') not in ('*', '+') or \
+                tu.sd(x_).get('ct') not in ('int', 'unsigned int'):
+            continue
+        pv_ = img.ev().ev(x_)
+        if pv_ is None or not (set(pv_.atoms()) & row_atoms):
+            continue
+        ub_ = size_bound(pv_)
+        lim_ = INT_MAX if tu.sd(x_).get('ct') == 'int' else 2 ** 32 - 1
+        if ub_ is not None and ub_ > lim_:
+            ctx.violation(R, inst, 'the row offset `%s` = %s is computed in `%s`: for an image whose pixel count still fits in int it can '
+                          'reach %d, more than %d: the offset wraps around and rows are read from the wrong place (e.g. sizeX*sizeY '
+                          'pixels with more than %d bytes of pixel data)' % (tu.show(x_), show(pv_), tu.sd(x_).get('ct'), ub_, lim_, lim_),
+                          tu.loc(x_), key=keyb + 'row-offset-overflow')
+            good = False
+            break
     # ---- rows written straight from the source image (all components of every pixel are stored, in order)
     direct = [(fw_, st_) for fw_, st_ in fwrites if (img.ptr_value(tu.call_parts(fw_)[2][0]) or (None, None))[1] in pix_param]
     if direct and not [r for r in reads if r[0][0] == 'ptr' and r[0][1] in pix_param] and len(fwrites) == 1:
@@ -2539,6 +2590,29 @@ def check_cached_names(ctx, tu):
                                            tu.sd(growth[m]).get('q', '').split('::')[-1] not in ('push_back', 'emplace_back')):
                         growth[m] = x
     good = True
+    caches = [fd['name'] for fd in rec['fields'] if re.match(r'^std::(unordered_map|map|vector|list|deque|set|unordered_set|forward_list)<', fd['ct'])
+              and 'std::basic_string<char>' in fd['ct']] if rec else []
+    for fn in sorted(tu.functions.values(), key=lambda x_: (x_['f'], x_['l'])):
+        if not fn['q'].startswith(TR) or tu.body(fn) is None or fn.get('dtor'):
+            continue
+        for x in tu.walk(tu.body(fn)):
+            if x.get('kind') not in ('CXXMemberCallExpr', 'CXXOperatorCallExpr'):
+                continue
+            sd, obj, args = tu.call_parts(x)
+            nm = sd.get('q', '').split('::')[-1]
+            o = tu.strip(obj) if obj is not None else None
+            if o is None or o.get('kind') != 'MemberExpr' or o.get('name') not in caches or \
+                    nm not in ('clear', 'erase', 'pop_back', 'pop_front', 'swap', 'extract', 'operator=', 'resize', 'assign'):
+                continue
+            ev_cleared = any(y.get('kind') == 'CXXMemberCallExpr' and tu.sd(y).get('q', '').split('::')[-1] == 'clear' and
+                             tu.call_parts(y)[1] is not None and tu.strip(tu.call_parts(y)[1]).get('name') == 'events'
+                             for y in tu.walk(tu.body(fn)))
+            if ev_cleared:
+                continue
+            ctx.violation(R, inst, '`%s` in %s destroys cached names while the recorded events that point to them are kept: the next '
+                          'saveLog prints dangling name / category pointers' % (tu.show(x), fn['q'].replace(TR, '')), tu.loc(x),
+                          key=key + 'cached-names-destroyed')
+            good = False
     if not verdicts:
         ctx.undecided(R, inst, 'no returned string pointer found', tu.fn_loc(f))
         return
@@ -2706,6 +2780,50 @@ def check_lock_reentry(ctx, tu):
         else:
             ctx.ok(R, inst, 'none of the tracing functions called under the lock takes it again', tu.fn_loc(f))
     ctx.floor(R, n, 2, 'getThreadTraceList and saveLog')
+
+
+def check_shared_state(ctx, tu):
+    """R-C20-11: namespace-scope state of the tracing unit that is not thread_local is written only by its static
+    initialiser or under a lock: the public functions are called from many threads (first use included)"""
+    R = 'R-C20-11'
+    ctx.describe(R, 'non-thread_local namespace-scope variables of the tracing unit (the recorder) are not assigned in functions '
+                 'without a lock / call_once: a check-then-create on first use races when two threads trace for the first time')
+    n = 0
+    bad = {}
+    for f in sorted(tu.functions.values(), key=lambda x: (x['f'], x['l'])):
+        if not f['q'].startswith(TR) or tu.body(f) is None or tu.fn_file(f) != 'rkcommon/tracing/Tracing.cpp':
+            continue
+        g = tu.cfg(f)
+        n += 1
+        for x in tu.walk(tu.body(f)):
+            tgt = None
+            if x.get('kind') == 'BinaryOperator' and x.get('opcode') == '=':
+                tgt = tu.kids(x)[0]
+            elif x.get('kind') == 'CXXOperatorCallExpr' and tu.sd(x).get('q', '').split('::')[-1] == 'operator=':
+                tgt = tu.call_parts(x)[1]
+            elif x.get('kind') == 'CXXMemberCallExpr' and tu.sd(x).get('q', '').split('::')[-1] in ('reset', 'swap', 'emplace'):
+                tgt = tu.call_parts(x)[1]
+            did = tu.ref_decl(tgt) if tgt is not None else None
+            vd = tu.node(did) if did else None
+            if vd is None or vd.get('kind') != 'VarDecl' or vd.get('tls') or tu.enclosing_fn(vd) is not None:
+                continue
+            if re.search(r'std::atomic<', vd.get('type', {}).get('qualType', '')):
+                continue
+            locked = any(y.get('kind') == 'VarDecl' and re.search(r'std::(lock_guard|unique_lock|scoped_lock)<', y.get('type', {}).get('qualType', ''))
+                         for y in tu.walk(tu.body(f))) or \
+                any(y.get('kind') == 'CallExpr' and tu.sd(y).get('q') == 'std::call_once' for y in tu.walk(tu.body(f)))
+            if not locked:
+                bad.setdefault(vd.get('name'), (x, f, vd))
+    if bad:
+        for name, (x, f, vd) in sorted(bad.items()):
+            ctx.violation(R, '%s writes `%s`' % (f['q'].replace(TR, ''), name), 'the namespace-scope variable `%s` (%s, not thread_local) is '
+                          'assigned in %s without a lock or call_once: two threads that use the tracing API for the first time at the same '
+                          'moment both see it unset and both create / assign it - a data race; one recorder and the thread lists '
+                          'registered with it are lost' % (name, vd.get('type', {}).get('qualType', '?'), f['q'].replace(TR, '')),
+                          tu.loc(x), key='%s|%s|%s|unsynchronised-shared-write' % (R, tu.fn_file(f), f['q'].replace(TR, '')))
+    else:
+        ctx.ok(R, 'tracing unit', '%d functions: no unsynchronised write to namespace-scope state' % n, 'rkcommon/tracing/Tracing.cpp')
+    ctx.floor(R, n, 15, 'functions of the tracing unit')
 
 
 def check_log_file_open(ctx, tu):
@@ -3324,8 +3442,8 @@ def short_q(q):
 
 
 def run(ctx):
-    ctx.assume('the pixel pointer handed to a wrapper addresses sizeX*sizeY pixels; sizeX, sizeY >= 0 and N_COMP*sizeX*sizeof '
-               'fits in int; fopen/fprintf/fwrite/std::ofstream behave as documented')
+    ctx.assume('the pixel pointer handed to a wrapper addresses sizeX*sizeY pixels; sizeX, sizeY >= 0, sizeX*sizeY and '
+               'N_COMP*sizeX*sizeof fit in int; fopen/fprintf/fwrite/std::ofstream behave as documented')
     ctx.assume('names, categories and thread names contain no characters that need JSON escaping; numbers print as finite '
                'decimal numbers (begin and end of a pair have different steady_clock readings); recorded histories have matching begin/end pairs (the unmatched-end error path may drop events)')
     tu, tt = ctx.front.parse_many([dict(unit='drivers/c20_writers.cpp', config='TBB'),
@@ -3338,6 +3456,7 @@ def run(ctx):
     check_utilization_divisor(ctx, tt)
     check_lock_reentry(ctx, tt)
     check_log_file_open(ctx, tt)
+    check_shared_state(ctx, tt)
     if ctx.tier == 'thorough':
         tu2, tt2 = ctx.front.parse_many([dict(unit='drivers/c20_writers.cpp', config='DEBUG', std='gnu++17', simd=False),
                                          dict(unit='rkcommon/tracing/Tracing.cpp', config='DEBUG', std='gnu++17')])
@@ -3349,5 +3468,6 @@ def run(ctx):
         check_utilization_divisor(ctx, tt2)
         check_lock_reentry(ctx, tt2)
         check_log_file_open(ctx, tt2)
+        check_shared_state(ctx, tt2)
     from rkstatic import selftest
     selftest.run(ctx)
